@@ -32,8 +32,8 @@ fn one<const K: usize>(rng: &mut Rng, thorough: bool) -> String {
     let m = 1 + rng.below(3);
     let p = 1 + rng.below(3);
     let depth = if thorough { 3 } else { 2 };
-    let fp = TreeParams { in_dim: n, out_dim: m, max_depth: depth + rng.below(2), partial16: *rng.pick(&[0, 0, 3, 6]), holes: rng.chance(1, 2) };
-    let gp = TreeParams { in_dim: m, out_dim: p, max_depth: depth, partial16: *rng.pick(&[0, 0, 3, 6]), holes: rng.chance(1, 3) };
+    let fp = TreeParams { in_dim: n, out_dim: m, max_depth: depth + rng.below(2), partial16: *rng.pick(&[0, 0, 3, 6]), holes: rng.chance(1, 2), palette: 0 };
+    let gp = TreeParams { in_dim: m, out_dim: p, max_depth: depth, partial16: *rng.pick(&[0, 0, 3, 6]), holes: rng.chance(1, 3), palette: 0 };
     let f: AffTree<K> = rand_tree(rng, &fp);
     let g: AffTree<K> = rand_tree(rng, &gp);
     let mut out = String::new();
